@@ -772,6 +772,17 @@ pub fn e2_spec(id: &str, tier: &str) -> Option<crate::e2::E2Spec> {
                 vec![vec![Op::NewInput(1), Op::Q(0)], vec![Op::Q(3), Op::NewInput(2)], vec![Op::Reclone, Op::NewInput(3)]],
                 if quick { 1 } else { 2 },
             ));
+            // the ORIGINAL handle allocated, performed a write and keeps allocating while a clone
+            // made after the write allocates too (`writer` = requests on the original handle,
+            // issued by the main thread while the other threads run)
+            {
+                let mut sc = mk("inputs-original-handle-after-write-2t", &p, vec![Op::NewInput(9), Op::Set(0, 1)], vec![vec![Op::NewInput(1), Op::NewInput(2)]], k);
+                sc.writer = vec![Op::NewInput(3), Op::NewInput(4)];
+                scens.push(sc);
+                let mut sc = mk("structs-original-handle-after-write-2t", &p, vec![Op::Q(3), Op::Set(1, 0)], vec![vec![Op::Q(0), Op::QFld(0, 0, 1)]], k);
+                sc.writer = vec![Op::Q(3), Op::QFld(3, 0, 0)];
+                scens.push(sc);
+            }
             Some(E2Spec { id: "C24", scens, cap_s: cap, rule: RULE_E2, assumptions: e2_assumptions() })
         }
         "C19" => {
@@ -817,6 +828,21 @@ pub fn e2_spec(id: &str, tier: &str) -> Option<crate::e2::E2Spec> {
         }
         "C18" => {
             let mut scens = Vec::new();
+            // four nested fixpoint queries entered by three threads: locks handed over along a chain
+            {
+                let p = progs::model_graph("chain-handover", &[vec![3], vec![2, 0], vec![3, 1], vec![3, 2]]);
+                scens.push(Scen {
+                    name: format!("{}-3t", p.name),
+                    prog: p,
+                    setup: vec![],
+                    threads: vec![vec![q(0)], vec![q(1)], vec![q(2)]],
+                    phase2_writes: vec![],
+                    phase2: false,
+                    bound: if quick { 1 } else { 2 },
+                    oracle: Oracle::Cycles,
+                    writer: vec![],
+                });
+            }
             for kind in [Kind::Fx, Kind::Fxj, Kind::Fb] {
                 let two: Vec<(ql::ex::Program, Vec<Vec<Op>>)> = vec![
                     (progs::cyc2(kind), vec![vec![q(0)], vec![q(1)]]),
